@@ -279,6 +279,9 @@ class OutEventModel:
             return 'data', new
         if kind == 'only':
             return 'data', {k: v for k, v in data.items() if k in ('value', 'source')}
+        if kind == 'empty':
+            # docs/events.rst: a returned dict (any dict) accepts the event and becomes its data
+            return 'data', {}
         raise ModelError(f"unknown filter {kind!r}")
 
     def _deliver(self, name, etype, data, meta):
